@@ -27,3 +27,117 @@ get_window_size = REG.add(Contract(
     ensures=_gws_ens,
     raises={"ValueError": lambda S, a: S.Not(S.is_instance(WS(a.self), "int+float"))},
 ))
+
+
+# --------------------------------------------------------------------------------------
+# OverlapWindowPlugin.do_compute (one input kind, one output): what is sent, what is withheld, what is kept as input
+# --------------------------------------------------------------------------------------
+from contracts.chunk import CHUNK, chunk_wf  # noqa: E402
+from pyvc.contract import make_symbolic  # noqa: E402
+
+
+def _fresh_chunk(eng, st, hint):
+    ref, st = make_symbolic(eng, eng.new_base(hint), CHUNK, st, set())
+    view = eng.resolve(ref, st.heap)
+    for _, f in chunk_wf(eng.S, view):
+        st = st.assume(eng.S.b(f))
+    return ref, view, st
+
+
+def _concat_hook(eng, args, kw, st, fr, k, node):
+    """strax.Chunk.concatenate([cached, new], allow_superrun): ASSUMED contract (checked by the bounded C07 stand-in):
+    for two adjacent chunks the result spans both and holds the rows of the first followed by the rows of the second"""
+    eng.assumptions.add("assumed contract of Chunk.concatenate for two adjacent chunks (checked by the bounded concatenate stand-in only)")
+    lst = args[0]
+    a, b = eng.resolve(lst[0], st.heap), eng.resolve(lst[1], st.heap)
+    eng.oblige("overlap", "the cached input ends exactly where the new input starts", st, a.end == b.start, node)
+    ref, v, st = _fresh_chunk(eng, st, "concatenated")
+    S = eng.S
+    st = st.assume(S.b(S.And(v.start == a.start, v.end == b.end, v.data.n == a.data.n + b.data.n)))
+    g = dict(st.ghost)
+    g["py:K"] = ref
+    return k(ref, St(st.env, st.heap, st.pc, g))
+
+
+def _super_compute_hook(eng, args, kw, st, fr, k, node):
+    """super().do_compute(chunk_i=..., **kwargs): callers' view of Plugin.do_compute + _fix_output (proved as C08 / C12): a
+    well-formed chunk covering exactly the inputs' interval; its rows are the user's computation (arbitrary)"""
+    inp = eng.resolve(kw["a"], st.heap)
+    fr.on_raise(Exc("Any", Opq(eng.fresh("compute_exc", "V"))), st)
+    ref, v, st = _fresh_chunk(eng, st, "result")
+    st = st.assume(eng.S.b(eng.S.And(v.start == inp.start, v.end == inp.end)))
+    g = dict(st.ghost)
+    g["py:R"] = ref
+    g["py:IN"] = kw["a"]
+    return k(ref, St(st.env, st.heap, st.pc, g))
+
+
+def _window_hook(eng, args, kw, st, fr, k, node):
+    """self._get_window_size(): (look-back, look-ahead); non-negative integers (contract above; assumption: integers)"""
+    eng.assumptions.add("window sizes are non-negative integers (a negative single number is not refused by _get_window_size)")
+    wl, wr = eng.fresh("w_left"), eng.fresh("w_right")
+    g = dict(st.ghost)
+    g["wl"], g["wr"] = wl, wr
+    fr.on_raise(Exc("ValueError"), st)
+    return k((wl, wr), St(st.env, st.heap, st.pc + [wl >= 0, wr >= 0], g))
+
+
+def _cache_beyond_hook(eng, args, kw, st, fr, k, node):
+    """self.cache_beyond(kwargs, cache_inputs_beyond, self.cached_input)"""
+    me = st.heap[st.env["self"].base]
+    eng.oblige("overlap", "the inputs are kept from two look-back windows before the point up to which results were sent", st,
+               eng.to_int(args[1]) == me["sent_until"] - 2 * st.ghost["wl"] - 1, node)
+    eng.oblige("overlap", "what is cached is this call's (concatenated) input", st,
+               z3.BoolVal(isinstance(args[0], dict) and args[0].get("a") is st.ghost.get("py:IN")), node)
+    fr.on_raise(Exc("ValueError"), st)
+    g = dict(st.ghost)
+    g["input_cached"] = z3.BoolVal(True)
+    return k(eng.fresh("prev_split"), St(st.env, st.heap, st.pc, g))
+
+
+def _ow_ens(S, a, r):
+    g = a.ghost
+    R = a.rghost["R"]
+    me = a.self
+    old_sent = a.old.self.sent_until
+    start_here = S.max(S.min(old_sent, R.end), R.start)        # old sent_until clamped into the result's span
+    inval = R.end - 2 * g.wr - 1
+    return [
+        ("what is sent starts where the previous call stopped sending (clamped into this result's span)", r.start == start_here),
+        ("it ends at the new sent_until, which is where the withheld results start; those reach to the end of the input",
+         S.And(r.end == me.sent_until, me.cached_results.start == me.sent_until, me.cached_results.end == R.end)),
+        ("nothing is sent that lies beyond end - 2*look-ahead - 1 (it could still change when the next chunk arrives)",
+         me.sent_until <= S.max(start_here, inval)),
+        ("sent and withheld rows together are all result rows from the start of this sending on; sent rows end by sent_until, "
+         "withheld rows start at or after it",
+         S.And(S.forall(0, r.data.n, lambda j: r.data.f("endtime", j) <= me.sent_until),
+               S.forall(0, me.cached_results.data.n, lambda j: me.cached_results.data.f("time", j) >= me.sent_until))),
+        ("sending only moves forward", me.sent_until >= start_here),
+        ("the input needed for the next call was cached", g.input_cached)]
+
+
+OWP = ObjT("OverlapWindowPlugin", cached_input={"a": CHUNK}, cached_results=CHUNK, sent_until="int", multi_output="bool", allow_superrun="V")
+OWP_FIRST = ObjT("OverlapWindowPlugin", cached_input={}, cached_results=CHUNK, sent_until="int", multi_output="bool", allow_superrun="V")
+
+
+def _ow_contract(variant, self_spec):
+    return REG.add(Contract(
+        F, "OverlapWindowPlugin.do_compute", variant=variant,
+        params=dict(self=self_spec, chunk_i="V", kwargs={"a": CHUNK}),
+        requires=lambda S, a: chunk_wf(S, a.kwargs["a"]) + [("single-output plugin", S.Not(a.self.multi_output)), ("sent_until >= 0", a.self.sent_until >= 0)]
+        + ([] if variant.startswith("first") else (chunk_wf(S, a.self.cached_input["a"]) + [
+            ("the cached input ends where the new input starts (established by the previous call: the cache is the tail of its input)",
+             a.self.cached_input["a"].end == a.kwargs["a"].start)])),
+        ensures=_ow_ens,
+        raises={"Any": lambda S, a: S.true, "ValueError": lambda S, a: S.true, "CannotSplit": lambda S, a: S.true,
+                "ValueError:runs": lambda S, a: S.true, "RuntimeError": lambda S, a: S.false},
+        ghost={"wl": z3.IntVal(0), "wr": z3.IntVal(0), "input_cached": z3.BoolVal(False)},
+        calls={"strax.Chunk.concatenate": _concat_hook, "super().do_compute": _super_compute_hook,
+               "self._get_window_size": _window_hook, "self.cache_beyond": _cache_beyond_hook},
+        expected_dead=[("raise RuntimeError", "OverlapWindowPlugin got incongruent inputs"),
+                       ("raise RuntimeError", "OverlapWindowPlugin must have a dependency")],
+    ))
+
+
+ow_do_compute_first = _ow_contract("first-call", OWP_FIRST)
+ow_do_compute_later = _ow_contract("later-call", OWP)
